@@ -165,6 +165,28 @@ pub fn exec(p: &[&str], scratch: &str) -> String {
             c.compute_coverages();
             format!("{}{}", hex(&std::fs::read(format!("{}/kmers.vectors", od)).unwrap()), leftover(&od))
         }
+        "read" => {
+            // read <file name> <expected format> <members> <expected records>
+            // a name ending in .gz is written as one gzip member per given member (some stored, some deflated)
+            let d = fresh(scratch);
+            let members = unhex_list(p[3]);
+            let path = format!("{}/{}", d, p[1]);
+            let bytes = if p[1].ends_with(".gz") {
+                let mut out = vec![];
+                for (i, m) in members.iter().enumerate() {
+                    let level = if (i + m.len()) % 3 == 0 { Compression::none() } else { Compression::default() };
+                    out.extend(gz(&[m.clone()], level));
+                }
+                out
+            } else { members.concat() };
+            std::fs::write(&path, bytes).unwrap();
+            let format = match ktio::seq::SeqFormat::get(&path) { Some(f) => f, None => return "none".into() };
+            let name = match format { ktio::seq::SeqFormat::Fasta => "fa", ktio::seq::SeqFormat::Fastq => "fq" };
+            let recs = ktio::seq::Sequences::new(format, ktio::seq::get_reader(&path).unwrap()).unwrap();
+            let items: Vec<String> = recs.map(|r| format!("{}:{}:{}", r.n, hex(r.id.as_bytes()), hex(&r.seq))).collect();
+            let st = ktio::seq::Sequences::seq_stats(format, ktio::seq::get_reader(&path).unwrap());
+            format!("{}|{}|{},{}", name, items.join(";"), st.seq_count, st.total_length)
+        }
         "s2m" | "m2s" => {
             // s2m w m threads container recs
             let d = fresh(scratch);
